@@ -273,6 +273,87 @@ def rule_r2(facts, rep, rid="C07-R2"):
     rep.floor(rid, "level obligations", n, 11)
 
 
+
+def _lit_is_one(z):
+    return z.get("k") == "lit" and str(z.get("v", "")).split(":", 1)[-1].rstrip("usize") in ("1",)
+
+
+def _str_lits(e):
+    """String literals an expression can evaluate to (`"- "`, `if c { "- " } else { "  " }`); None if it is not literal-valued."""
+    while e is not None and e.get("k") in ("block",) and not e.get("stmts"):
+        e = e.get("e")
+    while e is not None and e.get("k") in ("addrof", "unary"):
+        e = e.get("e")
+    if e is None:
+        return None
+    if e.get("k") == "lit":
+        v = str(e.get("v", ""))
+        if v.startswith(("s:", "c:")):
+            return [v.split(":", 1)[1]]
+        return None
+    if e.get("k") == "if" and e.get("e") is not None:
+        a, b = _str_lits(e.get("t")), _str_lits(e.get("e"))
+        if a is not None and b is not None:
+            return a + b
+    if e.get("k") == "match":
+        out = []
+        for arm in e.get("arms", []):
+            a = _str_lits(arm.get("body"))
+            if a is None:
+                return None
+            out += a
+        return out
+    return None
+
+
+def _line_emissions(g):
+    """Places where a list printer writes a content line (the `&str` item of its `lines()` loop) into its output, as
+    ([node], [(node, why)] for those not directly preceded by a literal blank).  Two idioms: a format! template (`"{} {}\n"`: the template
+    must contain a literal blank) and piecewise appends (`push_str(marker); push_str(line)`: the piece appended just before is literal and
+    ends with a blank)."""
+    c = ctx(g)
+    line_ids = set()
+    def binds(p):
+        if isinstance(p, dict):
+            if p.get("k") == "p_bind" and (p.get("ty") or "").replace("&", "").strip() == "str":
+                line_ids.add(p["id"])
+            for v in p.values():
+                binds(v)
+        elif isinstance(p, list):
+            for v in p:
+                binds(v)
+    for x in fb.walk(g.body):
+        if x.get("k") == "match" and x.get("src") == "ForLoopDesugar":
+            for y in fb.walk(x):
+                if y.get("k") == "match":
+                    for arm in y.get("arms", []):
+                        binds(arm.get("pat"))
+    emits, bad = [], []
+
+    def is_line(e):
+        return any(y.get("k") == "path" and y.get("res") == "local" and y.get("id") in line_ids for y in fb.walk(e))
+    for blk in [x for x in fb.walk(g.body) if x.get("k") == "block"]:
+        seq = list(blk.get("stmts", [])) + ([blk["e"]] if blk.get("e") is not None else [])
+        prev = None
+        for st in seq:
+            if st.get("k") == "mcall" and st["name"] in ("push_str", "push") and st.get("args"):
+                a = st["args"][0]
+                if is_line(a):
+                    emits.append(st)
+                    tmpl = [y for y in fb.walk(a) if y.get("k") == "lit" and str(y.get("v", "")).startswith("bs:")]
+                    if tmpl:
+                        if " " not in str(tmpl[0]["v"])[3:]:
+                            bad.append((st, "template without a blank"))
+                    else:
+                        lits = _str_lits(prev["args"][0]) if prev is not None else None
+                        if lits is None or not all(l.endswith(" ") for l in lits):
+                            bad.append((st, "the piece appended before the line is %s" % ("`%s`" % fb.show(prev["args"][0])[:40] if prev is not None else "missing")))
+                prev = st
+            else:
+                prev = None
+    return emits, bad
+
+
 def rule_r4(facts, rep, rid="C07-R4"):
     rep.rule(rid, "continuation lines of a list item are indented by the width of the marker actually printed (the pad is computed from the same "
                   "prefix value as the first line), the first line gets the marker, and both list printers number / mark every item")
@@ -290,22 +371,15 @@ def rule_r4(facts, rep, rid="C07-R4"):
     for nm in ("model::graph::left_pad_and_prefix_num", "model::graph::left_pad_and_prefix"):
         g = facts.fn(nm)
         rep.saw_fn(g)
-        tmpl = []
-        for x in fb.walk(g.body):
-            if x.get("k") == "mcall" and x["name"] == "push_str":
-                lits = [y for y in fb.walk(x) if y.get("k") == "lit" and str(y.get("v", "")).startswith("bs:")]
-                uses_line = any(y.get("k") == "path" and y.get("res") == "local" and (y.get("ty") or "").replace("&", "") == "str" for y in fb.walk(x))
-                if lits and uses_line:
-                    tmpl.append((x, str(lits[0]["v"])[3:]))
         key = g.def_ + "|marker-text-separator"
-        bad = [(x, t) for x, t in tmpl if " " not in t]
-        if not tmpl:
+        emits, bad = _line_emissions(g)
+        if not emits:
             rep.violation(rid, key, "%s no longer formats `<marker> <line>` lines" % nm, g.loc)
         elif bad:
-            rep.violation(rid, key, "a line template of %s has no literal blank between the marker and the text: as soon as the marker fills its column (item 100.) it is glued to the "
-                          "text and the line is no longer a list item" % fb.last_seg(nm), loc(g, bad[0][0]))
+            rep.violation(rid, key, "a line of %s is written without a literal blank between the marker / pad and the text (%s): as soon as the marker fills its column "
+                          "(item 100.) it is glued to the text and the line is no longer a list item" % (fb.last_seg(nm), bad[0][1]), loc(g, bad[0][0]))
         else:
-            rep.ok(rid, key, "%d line template(s), each with a literal blank after the marker / pad" % len(tmpl), g.loc)
+            rep.ok(rid, key, "%d place(s) where a content line is written, each directly after a literal blank" % len(emits), g.loc)
     gb = facts.fn("GraphBlock::to_markdown")
     for vs, arm in A.arms_of(A.matches_on(gb, "GraphBlock")[0]):
         for v in vs:
@@ -314,7 +388,10 @@ def rule_r4(facts, rep, rid="C07-R4"):
                 en = [x for x in fb.walk(arm["body"]) if x.get("k") == "mcall" and x["name"] == "enumerate"]
                 call = [x for x in fb.walk(arm["body"]) if x.get("k") == "call" and (fb.callee(x) or "").endswith("left_pad_and_prefix_num")]
                 t = fb.show(call[0]["args"][1]).replace(" ", "") if call else ""
-                if en and t in ("(n+1)", "(1+n)"):
+                a1 = call[0]["args"][1] if call else None
+                plus_one = a1 is not None and a1.get("k") == "binary" and a1.get("op") == "+" and sorted([a1["l"].get("k"), a1["r"].get("k")]) == ["lit", "path"] and \
+                    any(_lit_is_one(z) for z in (a1["l"], a1["r"])) and any(z.get("k") == "path" and z.get("res") == "local" and ctx(gb).pos.get(z.get("id"), "").startswith("cp0>tuple.0") for z in (a1["l"], a1["r"]))
+                if en and plus_one:
                     rep.ok(rid, key, "items numbered enumerate() + 1", loc(gb, arm["body"]))
                 else:
                     rep.violation(rid, key, "ordered-list items are numbered `%s`, not position + 1" % t, loc(gb, arm["body"]))
